@@ -36,6 +36,7 @@ func init() {
 			var js []*Job
 			for _, j := range properties["C03"].Jobs(tier) {
 				if j.Name != "read-n4" { // 30 min on its own; it stays in C03's thorough tier
+					j.Cross = false // the cross-solver repetition of these jobs belongs to C03
 					js = append(js, j)
 				}
 			}
